@@ -102,7 +102,7 @@ FLOORS = {
     "C01": {"c01_bound_checked_after_caught_panic": 50000, "evaluations": {"quick": 300000, "thorough": 10000000}, "distinct": 300, "exact_fit": 500, "one_over": 200, "grow_the_lru": 50, "limit_cur_minus_1": 50, "limit_zero": 50, "limit_max": 50},
     "C02": {"sum:model_ops_": 200000, "evaluations": {"quick": 300000, "thorough": 10000000}, "distinct": 100, "replacements": 1000, "reallocations": 1000, "sum:c11_class0": 200, "sum:c11_class2": 200, "sum:c11_class3": 100, "sum:c11_class4": 100, "c02_realheap_events": 500000, "c02_layout_events": 20000},
     "C03": {"evaluations": {"quick": 300000, "thorough": 10000000}, "distinct": 200, "multi_evictions": 50, "replace_then_evict": 20, "grow_the_lru": 20, "exact_fit_evicts_nothing": 20},
-    "C04": {"evaluations": {"quick": 300000, "thorough": 10000000}, "distinct": 300, "each:lookup_": 50, "reallocations": 1000, "max:const_hasher_max_len": 20, "c04_alias_lookups": 100000, "c04_alias_prefix_of_stored_key_that_is_absent": 20000},
+    "C04": {"evaluations": {"quick": 300000, "thorough": 10000000}, "distinct": 300, "each:lookup_": 50, "reallocations": 1000, "max:const_hasher_max_len": 20, "c04_alias_lookups": 100000, "c04_alias_prefix_of_stored_key_that_is_absent": 20000, "c04_path_lookups_with_another_spelling_of_a_stored_key": 10000},
     "C05": {"c05_order_checked_after_caught_panic": 50000, "evaluations": {"quick": 300000, "thorough": 10000000}, "distinct": 100, "each:promote_": 5, "order_checked_after_realloc_len10": 100, "debug_compared": 100},
     "C06": {"evaluations": {"quick": 300000, "thorough": 10000000}, "distinct": 100, "c12_dropped_after_prefix": 500, "each:c06_typevar_": 500},
     "C07": {"evaluations": {"quick": 300000, "thorough": 10000000}, "distinct": 300, "reallocations": {"quick": 10000, "thorough": 300000}, "max:max_len": {"quick": 100, "thorough": 1000}},
@@ -116,8 +116,8 @@ FLOORS = {
     "C18": {"evaluations": 128, "distinct": 128, "c18_table_rows": 64, "c18_rows_expected_send": 8, "c18_rows_expected_not_send": 56, "c18_moved_across_threads": 20, "c18_nonstatic_exercise_runs": 1, "c18_iterator_autotrait_rows": 112, "c18_programs_that_must_not_compile": 20, "c18_programs_rejected_by_the_borrow_checker": 20},
     "C19": {"evaluations": {"quick": 5000, "thorough": 80000}, "distinct": 100, "c19_shared_ops_under_write_trap": 500000, "c19_thread_runs_under_write_trap": 10000, "c19_state_empty": 50, "c19_state_single": 50,
             "c19_state_tombstoned": 50, "c19_state_const_hasher": 200, "c19_thread_runs_race_detector": 20, "max:c19_max_len": 30, "c19_deep_states": 50, "max:c19_deep_state_max_colliding_len": 4000},
-    "C20": {"evaluations": {"quick": 300000, "thorough": 10000000}, "distinct": 150, "c20_rebuilds": 2000, "c20_with_departures": 5000, "c20_scale_ops_n16384": 5000, "c20_scale_ops_n1024": 5000, "c20_scale_rebuilds": 500, "c20_scale_mass_ejections": 1000, "c20_giant_rebuilds": 3, "max:c20_giant_rebuild_max_len": 4500000, "max:c20_scale_mass_ejection_max_departures": 10000},
-    "C08": {"evaluations": {"quick": 500000, "thorough": 20000000}, "distinct": 3000, "c08_bulk_shapes_checked": 100000, "c08_totality_cases_debug0": 42, "c08_totality_cases_native": 21, "c08_measured_while_locked_elsewhere": 10, "c08_values_with_user_defined_leaves": 10000},
+    "C20": {"evaluations": {"quick": 300000, "thorough": 10000000}, "distinct": 150, "c20_rebuilds": 2000, "c20_with_departures": 5000, "c20_scale_ops_n16384": 5000, "c20_scale_ops_n1024": 5000, "c20_scale_rebuilds": 500, "c20_scale_mass_ejections": 1000, "c20_giant_rebuilds": 2, "max:c20_giant_rebuild_max_len": 4500000, "max:c20_scale_mass_ejection_max_departures": 10000},
+    "C08": {"evaluations": {"quick": 500000, "thorough": 20000000}, "distinct": 3000, "c08_bulk_shapes_checked": 100000, "c08_totality_cases_debug0": 42, "c08_totality_cases_native": 21, "c08_measured_while_locked_elsewhere": 10, "c08_boxes_of_user_defined_unsized_types": 1000, "c08_values_with_user_defined_leaves": 10000},
     "C09": {"evaluations": {"quick": 100000, "thorough": 4000000}, "distinct": 400, "c09_exact_values": 80000, "c09_bounded_values": 5000, "c09_values_holding_memory": 50000},
     "C10": {"sum:model_ops_": 200000, "evaluations": {"quick": 100000, "thorough": 3000000}, "distinct": 40, "each:c10_": 100},
     "C11": {"sum:model_ops_": 200000, "c11_completed_mutate_of_entry_with_stale_record": 2000, "c11_realheap_mutates_in_stale_clone": 1000, "evaluations": {"quick": 100000, "thorough": 3000000}, "distinct": 30, "each:c11_class": 10},
